@@ -64,12 +64,52 @@ func (c *Ctx) le1Len(fa *FnAnalysis, s *State, v ssa.Value, sv []ssa.Value) bool
 	return c.provesFact(fa, s, Fact{aTR, c.eng.tt.mk(Term{K: "B", S: "<=", A: c.intConst(1), B: lt}), true}, sv)
 }
 
+// sliceHyp: facts that hold once the slice expression x has been evaluated
+// without panicking: 0 <= high (the runtime check); for a site whose range
+// obligation is in the table of assumed sites (C08), also high <= len.
+func (c *Ctx) sliceHyp(fa *FnAnalysis, s *State, x *ssa.Slice) *State {
+	if x.High == nil {
+		return s
+	}
+	tt := c.eng.tt
+	tmp := s.clone()
+	tmp.frozen = false
+	ht := fa.term(s, x.High)
+	tmp.add(aTR, tt.mk(Term{K: "B", S: "<=", A: c.intConst(0), B: ht}), true)
+	key := "R-BND:" + relName(fa.fn) + ":slice " + typeStr(x.X.Type())
+	if why, ok := censusAssumed[key]; ok {
+		tmp.add(aTR, tt.mk(Term{K: "B", S: "<=", A: ht, B: tt.mk(Term{K: "LEN", A: fa.term(s, x.X)})}), true)
+		c.rep.assume(key + ": " + why)
+	}
+	return tmp
+}
+
+// ge1: the int value v is >= 1 in state s.
+func (c *Ctx) ge1(fa *FnAnalysis, s *State, v ssa.Value, sv []ssa.Value) bool {
+	if k, ok := constIntOf(v); ok {
+		return k >= 1
+	}
+	t := fa.term(s, v)
+	if t.K == "C" {
+		if k, ok := constInt64(t.Const); ok {
+			return k >= 1
+		}
+	}
+	return c.provesFact(fa, s, Fact{aTR, c.eng.tt.mk(Term{K: "B", S: "<=", A: c.intConst(1), B: t}), true}, sv)
+}
+
 func (c *Ctx) lenIs0(fa *FnAnalysis, s *State, v ssa.Value, sv []ssa.Value) bool {
 	if isNilConst(v) {
 		return true
 	}
 	if m, ok := v.(*ssa.MakeSlice); ok {
 		if k, ok := constIntOf(m.Len); ok && k == 0 {
+			return true
+		}
+	}
+	if sl, ok := v.(*ssa.Slice); ok && sl.High != nil {
+		// make(T, 0) of a constant size is lowered to new [n]T; slice [:0]
+		if k, ok := constIntOf(sl.High); ok && k == 0 {
 			return true
 		}
 	}
@@ -111,6 +151,9 @@ func (c *Ctx) slot0From(fa *FnAnalysis, s *State, v ssa.Value, addr ssa.Value, s
 	case *ssa.ChangeType:
 		return c.slot0From(fa, s, x.X, addr, sv, seen)
 	case *ssa.Phi:
+		if bv, ok := s.bind[x]; ok && bv != nil && bv != ssa.Value(x) {
+			return c.slot0From(fa, s, bv, addr, sv, seen)
+		}
 		for _, e := range x.Edges {
 			if ok, why := c.slot0From(fa, s, e, addr, sv, seen); !ok {
 				return false, why
@@ -127,8 +170,15 @@ func (c *Ctx) slot0From(fa *FnAnalysis, s *State, v ssa.Value, addr ssa.Value, s
 			}
 		}
 		if x.High != nil {
-			ht := fa.term(s, x.High)
-			if !c.provesFact(fa, s, Fact{aTR, c.eng.tt.mk(Term{K: "B", S: "<=", A: c.intConst(1), B: ht}), true}, sv) {
+			if !c.ge1(fa, c.sliceHyp(fa, s, x), x.High, sv) {
+				if os.Getenv("CAPDEBUG") != "" {
+					fmt.Printf("GE1 FAIL %s high=%s\n", relName(fa.fn), fa.term(s, x.High).key)
+					for _, f := range s.factList() {
+						if f.Kind == aTR && f.T.K == "B" {
+							fmt.Printf("      %s=%v\n", f.T.key, f.Val)
+						}
+					}
+				}
 				return false, "re-sliced with a high bound not proved >= 1: slot 0 may be dropped"
 			}
 		}
@@ -146,7 +196,8 @@ func (c *Ctx) slot0From(fa *FnAnalysis, s *State, v ssa.Value, addr ssa.Value, s
 			if ok, _ := c.slot0From(fa, s, A, addr, sv, seen); ok && c.le1Len(fa, s, A, sv) {
 				return true, ""
 			}
-			return false, "append to a slice that is neither a non-empty header of the object nor provably empty"
+			ok2, why2 := c.slot0From(fa, s, A, addr, sv, map[ssa.Value]bool{})
+			return false, fmt.Sprintf("append to a slice that is neither a non-empty header of the object (header: %v %s; len>=1: %v) nor provably empty", ok2, why2, c.le1Len(fa, s, A, sv))
 		}
 	}
 	return false, "value of unknown origin (" + strings.TrimSpace(fmt.Sprintf("%T", v)) + ")"
@@ -303,6 +354,11 @@ func (c *Ctx) ruleSlot0New() {
 			}
 			continue
 		}
+		if sl, isSl := st.Val.(*ssa.Slice); isSl && sl.High != nil {
+			if k, ok := constIntOf(sl.High); ok && k == 0 {
+				continue // make(stack, 0)
+			}
+		}
 		call, isCall := st.Val.(*ssa.Call)
 		if isCall {
 			if b, ok := call.Call.Value.(*ssa.Builtin); ok && b.Name() == "append" && len(call.Call.Args) == 2 {
@@ -377,6 +433,9 @@ func (c *Ctx) ruleSlot0Args() {
 				if cc == nil {
 					continue
 				}
+				if _, isB := cc.Value.(*ssa.Builtin); isB {
+					continue
+				}
 				for _, a := range cc.Args {
 					if !c.p.isNamed(a.Type(), "stack") {
 						continue
@@ -411,50 +470,58 @@ func (c *Ctx) ruleSlot0Args() {
 	}
 }
 
-// ruleSlot0Elems: an element store through a stack header uses index >= 1.
+// ruleSlot0Elems: an element store through a stack header uses an index
+// >= 1 (the R-BND obligations "element store on stack (slot >= 1)" of the
+// interprocedural census, lower and upper bound), and no bulk copy targets a
+// header from slot 0.
 func (c *Ctx) ruleSlot0Elems() {
 	rep := c.rep
+	marker := "element store on stack (slot >= 1)"
+	c.censusOnly = func(what, detail string) bool {
+		return what == marker || strings.Contains(detail, marker)
+	}
+	c.ruleCensus(nil, map[string]bool{"R-BND": true})
+	c.censusOnly = nil
 	n := 0
-	for _, fn := range c.p.Funcs {
-		var fa *FnAnalysis
-		ord := newOrdinal()
-		for _, b := range fn.Blocks {
-			for _, in := range b.Instrs {
-				st, ok := in.(*ssa.Store)
-				if !ok {
-					continue
-				}
-				ia, ok := st.Addr.(*ssa.IndexAddr)
-				if !ok || !c.p.isNamed(ia.X.Type(), "stack") {
-					continue
-				}
-				n++
-				if fa == nil {
-					fa = c.eng.analyze(fn, nil)
-				}
-				sv := c.stackValues(fn)
-				construct := ord.next("element store")
-				okAll := true
-				for _, s := range fa.statesBefore(st) {
-					if c.stateInfeasible(fa, s, sv) {
-						continue
-					}
-					it := fa.term(s, ia.Index)
-					if !c.provesFact(fa, s, Fact{aTR, c.eng.tt.mk(Term{K: "B", S: "<=", A: c.intConst(1), B: it}), true}, sv) {
-						// a slice under construction that is not yet a header (rebuilt copy): index into a local value
-						okAll = false
-					}
-				}
-				if okAll {
-					rep.ok("R-SLOT0", relName(fn), construct, c.p.instrPos(st), "index >= 1 on every path: the configuration slot is never overwritten")
-				} else {
-					rep.bad("R-SLOT0", relName(fn), construct, c.p.instrPos(st), "an element store through a stack header is not proved to use index >= 1: the configuration slot may be overwritten")
-				}
-			}
+	for _, o := range rep.Obls {
+		if o.Rule == "R-BND" && strings.Contains(o.Key, marker) {
+			n++
 		}
 	}
 	if n < 3 {
 		rep.bad("R-SLOT0", "package", "element stores", "?", fmt.Sprintf("only %d element stores found (expected >= 3)", n))
+	}
+	// builtin copy into a stack header
+	for _, fn := range c.p.Funcs {
+		ord := newOrdinal()
+		for _, b := range fn.Blocks {
+			for _, in := range b.Instrs {
+				call, ok := in.(*ssa.Call)
+				if !ok {
+					continue
+				}
+				bi, ok := call.Call.Value.(*ssa.Builtin)
+				if !ok || bi.Name() != "copy" || len(call.Call.Args) != 2 {
+					continue
+				}
+				dst := call.Call.Args[0]
+				if !c.p.isNamed(dst.Type(), "stack") {
+					continue
+				}
+				construct := ord.next("copy into a stack header")
+				fa := c.eng.analyze(fn, nil)
+				sv := c.stackValues(fn)
+				okAll := false
+				if sl, isSl := dst.(*ssa.Slice); isSl && sl.Low != nil {
+					okAll = fa.allHold(in, func(s *State) bool { return c.ge1(fa, s, sl.Low, sv) })
+				}
+				if okAll {
+					rep.ok("R-SLOT0", relName(fn), construct, c.p.instrPos(in), "bulk copy starts at a slot >= 1")
+				} else {
+					rep.bad("R-SLOT0", relName(fn), construct, c.p.instrPos(in), "a bulk copy into a stack header is not proved to start at a slot >= 1: the configuration slot may be overwritten")
+				}
+			}
+		}
 	}
 }
 
@@ -516,14 +583,13 @@ func collectSub(t *Term, pred func(*Term) bool, out map[*Term]bool) {
 // header of the object is equated with the symbol K, (b) CAP is assumed for
 // every header the object held (case K != 0), (c) the verdicts of isFull on
 // such headers are expanded (R-CAPEQ proves isFull(h) == (K != 0 ∧ len(h) == K)).
-func (c *Ctx) capHypotheses(fa *FnAnalysis, s *State, at *Term, extra []*Term) *State {
+func (c *Ctx) capHypotheses(fa *FnAnalysis, s *State, isHdr func(*Term) bool, extra []*Term, kZero bool) *State {
 	tt := c.eng.tt
 	K := c.capSym()
 	tmp := s.clone()
 	tmp.frozen = false
 	hdrs := map[*Term]bool{}
 	apps := map[*Term]bool{}
-	isHdr := func(t *Term) bool { return t.K == "L" && t.S == "HDR" && t.A == at }
 	isApp := func(t *Term) bool { return t.K == "APP" }
 	for _, f := range s.factList() {
 		collectSub(f.T, isHdr, hdrs)
@@ -544,15 +610,21 @@ func (c *Ctx) capHypotheses(fa *FnAnalysis, s *State, at *Term, extra []*Term) *
 		}
 		return tt.mk(Term{K: "B", S: "==", A: a, B: b})
 	}
-	// K >= 1 (case K != 0; K >= 0 holds by the base case)
-	tmp.add(aTR, tt.mk(Term{K: "B", S: "<=", A: c.intConst(1), B: K}), true)
+	if kZero {
+		tmp.add(aTR, eq(K, zero), true)
+	} else {
+		// K >= 1 (case K != 0; K >= 0 holds by the base case)
+		tmp.add(aTR, tt.mk(Term{K: "B", S: "<=", A: c.intConst(1), B: K}), true)
+	}
 	var hl []*Term
 	for h := range hdrs {
 		hl = append(hl, h)
 	}
 	sort.Slice(hl, func(i, j int) bool { return hl[i].key < hl[j].key })
 	for _, h := range hl {
-		tmp.add(aTR, tt.mk(Term{K: "B", S: "<=", A: tt.mk(Term{K: "LEN", A: h}), B: K}), true)
+		if !kZero {
+			tmp.add(aTR, tt.mk(Term{K: "B", S: "<=", A: tt.mk(Term{K: "LEN", A: h}), B: K}), true)
+		}
 		tmp.add(aTR, tt.mk(Term{K: "B", S: "<=", A: c.intConst(1), B: tt.mk(Term{K: "LEN", A: h})}), true)
 	}
 	var al []*Term
@@ -570,12 +642,17 @@ func (c *Ctx) capHypotheses(fa *FnAnalysis, s *State, at *Term, extra []*Term) *
 			tmp.add(aTR, eq(a, K), true)
 		case "stack.isFull":
 			if v, known := s.get(aTR, a); known {
-				// isFull(h) == (K != 0 ∧ len(h) == K); here K != 0
-				tmp.add(aTR, eq(tt.mk(Term{K: "LEN", A: h}), K), v)
+				// isFull(h) == (K != 0 ∧ len(h) == K)
+				if kZero {
+					if v {
+						tmp.dead = true
+					}
+				} else {
+					tmp.add(aTR, eq(tt.mk(Term{K: "LEN", A: h}), K), v)
+				}
 			}
 		}
 	}
-	_ = zero
 	return tmp
 }
 
@@ -614,7 +691,11 @@ func (c *Ctx) ruleCapInv() {
 			if cell, ok := s.heap[at.key]; ok {
 				extra = append(extra, fa.term(s, cell.val))
 			}
-			tmp := c.capHypotheses(fa, s, at, extra)
+			s0 := s
+			if sl, ok := st.Val.(*ssa.Slice); ok {
+				s0 = c.sliceHyp(fa, s, sl)
+			}
+			tmp := c.capHypotheses(fa, s0, func(t *Term) bool { return t.K == "L" && t.S == "HDR" && t.A == at }, extra, false)
 			newLen := tt.mk(Term{K: "LEN", A: fa.term(s, st.Val)})
 			goal := Fact{aTR, tt.mk(Term{K: "B", S: "<=", A: newLen, B: K}), true}
 			if c.stateInfeasible(fa, tmp, nil) {
@@ -645,4 +726,301 @@ func (c *Ctx) ruleCapInv() {
 	if n < 8 {
 		rep.bad("R-CAP", "package", "header stores", "?", fmt.Sprintf("only %d header stores found (expected >= 8)", n))
 	}
+}
+
+// ---------------------------------------------------------------- R-CAPEQ
+//
+// The observers agree with the invariant's quantities:  with K the capacity
+// word and h the current header,
+//   isFull(h)  == (K != 0 ∧ len(h) == K)        (used by R-CAP above)
+//   Len()      == len(h) - 1
+//   Cap()      == K - 1   when K != 0,  -1 otherwise
+//   Avail()    == K - len(h)  when K != 0,  -1 otherwise    (== Cap() - Len())
+//   IsFull()   == isFull(h)
+// and newStack records K == c + 1 for a requested capacity c > 0 (else 0), with
+// a backing array allocated for exactly K slots.
+
+// capObserverStates yields, for every feasible return state of fn, the two
+// hypothesis states (capacity set / no capacity) with the capacity readings
+// of the receiver's header equated to K.
+func (c *Ctx) capHeaderPred(fa *FnAnalysis, s *State) (func(*Term) bool, *Term, bool) {
+	// the header: the single argument of the stack.cap / stack.len / stack.ulen / stack.isFull readings
+	hs := map[*Term]bool{}
+	pick := func(t *Term) bool {
+		return t.K == "APP" && (t.S == "stack.cap" || t.S == "stack.isFull") && t.A != nil && t.A.B == nil
+	}
+	apps := map[*Term]bool{}
+	for _, f := range s.factList() {
+		collectSub(f.T, pick, apps)
+	}
+	for _, t := range s.terms {
+		collectSub(t, pick, apps)
+	}
+	for a := range apps {
+		hs[a.A.A] = true
+	}
+	if len(hs) != 1 {
+		return nil, nil, false
+	}
+	var h *Term
+	for x := range hs {
+		h = x
+	}
+	return func(t *Term) bool { return t == h }, h, true
+}
+
+func (c *Ctx) ruleCapEq() {
+	rep := c.rep
+	tt := c.eng.tt
+	K := c.capSym()
+	lenOf := func(h *Term) *Term { return tt.mk(Term{K: "LEN", A: h}) }
+	plus := func(a *Term, k int64) *Term { return tt.mk(Term{K: "B", S: "+", A: a, B: c.intConst(k)}) }
+	eq := func(a, b *Term) *Term {
+		if a.key > b.key {
+			a, b = b, a
+		}
+		return tt.mk(Term{K: "B", S: "==", A: a, B: b})
+	}
+	type obs struct {
+		name string
+		// expected value of the int result as a function of (h, capacity set?)
+		want func(h *Term, set bool) *Term
+		isBool bool
+	}
+	observers := []obs{
+		{"stack.isFull", nil, true},
+		{"Stack.IsFull", nil, true},
+		{"Stack.Len", func(h *Term, set bool) *Term { return plus(lenOf(h), -1) }, false},
+		{"Stack.Cap", func(h *Term, set bool) *Term {
+			if set {
+				return plus(K, -1)
+			}
+			return c.intConst(-1)
+		}, false},
+		{"Stack.Avail", func(h *Term, set bool) *Term {
+			if set {
+				return tt.mk(Term{K: "B", S: "-", A: K, B: lenOf(h)})
+			}
+			return c.intConst(-1)
+		}, false},
+	}
+	for _, ob := range observers {
+		fn := c.anchor("R-CAPEQ", ob.name)
+		if fn == nil {
+			continue
+		}
+		fa := c.eng.analyze(fn, nil)
+		pos := c.p.pos(fn.Pos())
+		var problems []string
+		checked := 0
+		initCalls := c.findCalls(fn, "Stack.IsInit")
+		for _, ret := range c.returnsOf(fn) {
+			if len(ret.Results) != 1 {
+				problems = append(problems, "unexpected result arity")
+				continue
+			}
+			for _, s := range fa.statesBefore(ret) {
+				if c.stateInfeasible(fa, s, c.stackValues(fn)) {
+					continue
+				}
+				// uninitialised receiver: zero answers are C17's business
+				skip := false
+				for _, ic := range initCalls {
+					if v, known := fa.knownTerm(s, aTR, fa.term(s, ic)); known && !v {
+						skip = true
+					}
+					if _, did := s.cep[ic]; !did {
+						skip = true
+					}
+				}
+				if len(initCalls) > 0 && skip {
+					continue
+				}
+				rt := fa.term(s, ret.Results[0])
+				var h *Term
+				var isHdr func(*Term) bool
+				if ob.name == "Stack.Len" {
+					// the header read by ulen
+					hs := map[*Term]bool{}
+					for _, t := range s.terms {
+						collectSub(t, func(t *Term) bool { return t.K == "L" && t.S == "HDR" }, hs)
+					}
+					collectSub(rt, func(t *Term) bool { return t.K == "L" && t.S == "HDR" }, hs)
+					for _, f := range s.factList() {
+						collectSub(f.T, func(t *Term) bool { return t.K == "L" && t.S == "HDR" }, hs)
+					}
+					if len(hs) != 1 {
+						problems = append(problems, fmt.Sprintf("cannot identify the receiver's header (%d candidates)", len(hs)))
+						continue
+					}
+					for x := range hs {
+						h = x
+					}
+					isHdr = func(t *Term) bool { return t == h }
+				} else {
+					var ok bool
+					isHdr, h, ok = c.capHeaderPred(fa, s)
+					if !ok {
+						if ob.isBool {
+							// IsFull: the result is the worker's verdict on the receiver's header
+							if rt.K == "APP" && rt.S == "stack.isFull" {
+								checked++
+								continue
+							}
+						}
+						problems = append(problems, "the capacity word is not read on an initialised path")
+						continue
+					}
+				}
+				for _, set := range []bool{true, false} {
+					if !ob.isBool {
+						tmp := c.capHypotheses(fa, s, isHdr, []*Term{h}, !set)
+						if tmp.dead || c.stateInfeasible(fa, tmp, nil) {
+							continue
+						}
+						checked++
+						want := ob.want(h, set)
+						if rt != want && !c.provesFactUncached(fa, tmp, Fact{aTR, eq(rt, want), true}, nil) {
+							problems = append(problems, fmt.Sprintf("result %s is not proved equal to %s (capacity set: %v)", rt.key, want.key, set))
+						}
+						continue
+					}
+					// Boolean observers: split on the result
+					if ob.name == "Stack.IsFull" && rt.K == "APP" && rt.S == "stack.isFull" && rt.A != nil && rt.A.B == nil && rt.A.A == h {
+						checked++
+						continue
+					}
+					for _, pol := range []bool{true, false} {
+						sp := s.clone()
+						sp.frozen = false
+						fa.assumeVal(sp, ret.Results[0], pol)
+						if sp.dead {
+							continue
+						}
+						tmp := c.capHypotheses(fa, sp, isHdr, []*Term{h}, !set)
+						if tmp.dead || c.stateInfeasible(fa, tmp, nil) {
+							continue
+						}
+						checked++
+						full := eq(lenOf(h), K)
+						if !set {
+							if pol {
+								problems = append(problems, "reports full although no capacity is set")
+							}
+							continue
+						}
+						if pol {
+							if !c.provesFactUncached(fa, tmp, Fact{aTR, full, true}, nil) {
+								problems = append(problems, "reports full on a path where len(header) == capacity is not implied")
+							}
+						} else {
+							p := c.newProver(fa, tmp)
+							if !(p.lt(lenOf(h), K) || p.lt(K, lenOf(h))) {
+								problems = append(problems, "reports not full on a path where len(header) != capacity is not implied")
+							}
+						}
+					}
+				}
+			}
+		}
+		if checked == 0 {
+			problems = append(problems, "no initialised return path could be examined")
+		}
+		if len(problems) == 0 {
+			rep.ok("R-CAPEQ", ob.name, "result", pos, fmt.Sprintf("result equals its linear form over (len(header), capacity word) on all %d initialised return cases", checked))
+		} else {
+			sort.Strings(problems)
+			rep.bad("R-CAPEQ", ob.name, "result", pos, strings.Join(uniq(problems), "; "))
+		}
+	}
+	c.ruleCapBase()
+}
+
+// ruleCapBase: newStack records K == c+1 for a requested capacity c > 0 and
+// allocates the backing array with exactly that capacity; otherwise K stays 0.
+func (c *Ctx) ruleCapBase() {
+	rep := c.rep
+	tt := c.eng.tt
+	fn := c.anchor("R-CAPEQ", "newStack")
+	if fn == nil {
+		return
+	}
+	fa := c.eng.analyze(fn, nil)
+	pos := c.p.pos(fn.Pos())
+	var capStore *ssa.Store
+	var mk *ssa.MakeSlice
+	for _, b := range fn.Blocks {
+		for _, in := range b.Instrs {
+			if st, ok := in.(*ssa.Store); ok {
+				if f, ok := st.Addr.(*ssa.FieldAddr); ok && fieldName(f) == "nodeConfig.cap" {
+					capStore = st
+				}
+			}
+			if m, ok := in.(*ssa.MakeSlice); ok && c.p.isNamed(m.Type(), "stack") {
+				mk = m
+			}
+		}
+	}
+	var problems []string
+	if capStore == nil {
+		rep.bad("R-CAPEQ", "newStack", "capacity word", pos, "newStack no longer records the capacity")
+		return
+	}
+	// the backing array is made with the recorded capacity, after it was recorded
+	if mk == nil {
+		problems = append(problems, "no make(stack, 0, cap) found")
+	} else {
+		ld, ok := mk.Cap.(*ssa.UnOp)
+		okCap := false
+		if ok && ld.Op == token.MUL {
+			if f, ok := ld.X.(*ssa.FieldAddr); ok && fieldName(f) == "nodeConfig.cap" && f.X == capStore.Addr.(*ssa.FieldAddr).X {
+				okCap = mk.Block() == capStore.Block() && instrIndex(mk) > instrIndex(capStore)
+			}
+		}
+		if !okCap {
+			problems = append(problems, "the backing array is not allocated with the recorded capacity word")
+		}
+		if k, ok := constIntOf(mk.Len); !ok || k != 0 {
+			problems = append(problems, "the backing array is not created empty")
+		}
+	}
+	// the value recorded: c[0] + 1 under c[0] > 0
+	n := 0
+	for _, s := range fa.statesBefore(capStore) {
+		n++
+		vt := fa.term(s, capStore.Val)
+		if vt.K != "B" || vt.S != "+" || vt.B == nil || vt.B.K != "C" || vt.B.S != "1" {
+			problems = append(problems, "the recorded capacity word is not <requested capacity> + 1: "+vt.key)
+			continue
+		}
+		req := vt.A
+		if !(req.K == "L" && req.A != nil && req.A.K == "IA" && req.A.A != nil && req.A.A.K == "P" && req.A.B != nil && req.A.B.S == "0") {
+			problems = append(problems, "the recorded capacity is not derived from the first capacity argument: "+req.key)
+			continue
+		}
+		if !c.provesFact(fa, s, Fact{aTR, tt.mk(Term{K: "B", S: "<", A: c.intConst(0), B: req}), true}, nil) {
+			problems = append(problems, "a capacity is recorded although the requested capacity is not known to be positive")
+		}
+	}
+	if n == 0 {
+		problems = append(problems, "the capacity store is unreachable")
+	}
+	if len(problems) == 0 {
+		rep.ok("R-CAPEQ", "newStack", "capacity word", pos, "K = requested capacity + 1 is recorded only for a positive request, and the empty backing array is made with capacity K (so K >= 1 when set: a wrapped sum would make make() fail)")
+	} else {
+		sort.Strings(problems)
+		rep.bad("R-CAPEQ", "newStack", "capacity word", pos, strings.Join(uniq(problems), "; "))
+	}
+}
+
+func (c *Ctx) returnsOf(fn *ssa.Function) []*ssa.Return {
+	var out []*ssa.Return
+	for _, b := range fn.Blocks {
+		for _, in := range b.Instrs {
+			if r, ok := in.(*ssa.Return); ok {
+				out = append(out, r)
+			}
+		}
+	}
+	return out
 }
